@@ -130,7 +130,7 @@ def gen_opts(rng, bits=None):
 
 def gen_table(rng, risky=False):
     """risky: include inputs known to violate the property on the unchanged tree (scientific decimals, newlines in
-    strings, amounts of a currency the ledger context does not know)."""
+    strings)."""
     ncols = rng.choice([1, 1, 2, 2, 3, 4])
     nrows = rng.choice([0, 1, 1, 2, 3, 4, 5, 7])
     null_p = rng.choice([0.0, 0.15, 0.3, 0.6])
@@ -148,7 +148,7 @@ def gen_table(rng, risky=False):
             'nums': NUMS if rng.random() < 0.7 else rng.sample(NUMS, 4)}
     # ledger display context: currency -> fractional digits; 'unknown currencies' only in risky mode
     prec = {c: rng.choice([0, 2, 2, 3, 4]) for c in curs}
-    if risky and rng.random() < 0.5:
+    if rng.random() < (0.5 if risky else 0.3):     # currencies the ledger context has never seen
         for c in rng.sample(curs, rng.randint(1, len(curs))):
             del prec[c]
     cols = []
@@ -509,7 +509,7 @@ CORPUS = [
 
 
 def run(tier, rng):
-    ntab, nopt, nrisky = (420, 6, 150) if tier == 'quick' else (2500, 32, 1200)
+    ntab, nopt, nrisky = (420, 6, 150) if tier == 'quick' else (1000, 32, 600)
     pairs = list(CORPUS)
     risky_flags = [True] * len(CORPUS)
     for k in range(ntab):
@@ -595,7 +595,7 @@ def run(tier, rng):
                 'sets (quick: 6 of the 32 boolean combinations per table, thorough: all 32) x nullvalue in 5 choices x listsep in 5 '
                 'choices; rendered by query_render.render_text/render_csv and render/text.py, render/csv.py; exact datatypes compared '
                 'byte for byte with the model, check_table/check_csv (vm_compute) applied to every implementation output; "risky" '
-                'tables additionally contain scientific decimals, newlines in strings and currencies unknown to the ledger context; '
+                'tables additionally contain scientific decimals and newlines in strings; about 30% of all tables have currencies unknown to the ledger context; '
                 'non-trivial = (table, options) with at least one row that rendered',
         'samples': [json.dumps({'table': c, 'opts': o}) for c, o in pairs[len(CORPUS):len(CORPUS) + 3]],
         'traces_validated_against_impl': len(pairs), 'histograms': hist,
